@@ -42,12 +42,22 @@ type srvCfg struct {
 	stallPct   int  // % of synchronous answers whose transport write stalls until resumed
 	largePct   int  // % of requests (hence echoed answers) larger than the 1 KiB pooled write buffer
 	lazyResume bool // stalled writes are resumed reluctantly, so that several pile up
+	tableForce *tableForce // enumerated registration table and message (C09 sweep)
 	malformedOnly []int // restrict undecodable messages to these kinds (indexes into malformedKinds)
 	idxRegs    bool // besides the catch-all, exact-index handlers for some commands (every message still has a handler)
 	nilHandler bool // the Server (and dialled connections) get a nil Handler: diam.DefaultServeMux serves
 	tlsStall   bool // one more peer connects over TLS and never gets through its handshake
 	force      *srvForce // enumerated fault placement (sweep)
 	hdr        *hdrForce // enumerated request header (C16 sweep)
+}
+
+// tableForce pins the registration table (a subset of the registrations that could
+// compete for one message) and that message.
+type tableForce struct {
+	app, code uint32
+	req       bool
+	mask      int // bit i set = registration i of c09SweepRegs is made
+	all       int // 0 none, 1 "ALL" by name, 2 ALL_CMD_INDEX
 }
 
 // hdrForce pins the header of the single request of a run.
@@ -367,6 +377,9 @@ func (w *srvWorld) genConn(i int, dialled, late bool) *peerConn {
 		if cfg.prop == "C16" || cfg.prop == "C15" {
 			isReq = true
 		}
+		if f := cfg.tableForce; f != nil {
+			m.App, m.Cmd, isReq = f.app, f.code, f.req
+		}
 		if simShort(m.App, m.Cmd) == "" {
 			m.App, m.Cmd = 0, 900
 		}
@@ -635,7 +648,9 @@ func (w *srvWorld) runInner() {
 		e.maxStep = 900
 	}
 	// registration
-	if cfg.table {
+	if cfg.tableForce != nil {
+		w.forceTable(cfg.tableForce)
+	} else if cfg.table {
 		w.drawTable()
 		if cfg.rereg {
 			w.reregLeft = t.Draw(6)
@@ -1536,6 +1551,51 @@ func (w *srvWorld) drawTable() {
 		}
 	}
 	switch t.Pick(2, 2, 1) {
+	case 1:
+		w.register("all", 0, 0, false, "")
+	case 2:
+		w.register("allidx", 0, 0, false, "")
+	}
+	w.snapshot()
+}
+
+// forceTable makes the registrations selected by f.mask among those that could compete for
+// the message (f.app, f.code, f.req): its own index, the index with the other R bit, of a
+// neighbouring application, of a neighbouring code; its short name with the right and the
+// wrong suffix, another command's short name; and the catch-all by name or by index.
+func (w *srvWorld) forceTable(f *tableForce) {
+	otherApp := uint32(0)
+	if f.app == 0 {
+		otherApp = 1001
+	}
+	otherCode := uint32(901)
+	if f.code == 901 {
+		otherCode = 900
+	}
+	short := simShort(f.app, f.code)
+	sfx, wrong := "A", "R"
+	if f.req {
+		sfx, wrong = "R", "A"
+	}
+	otherShort := "XB"
+	if short == "XB" {
+		otherShort = "XA"
+	}
+	regs := []func(){
+		func() { w.register("idx", f.app, f.code, f.req, "") },
+		func() { w.register("idx", f.app, f.code, !f.req, "") },
+		func() { w.register("idx", otherApp, f.code, f.req, "") },
+		func() { w.register("idx", f.app, otherCode, f.req, "") },
+		func() { w.register("name", 0, 0, false, short+sfx) },
+		func() { w.register("name", 0, 0, false, short+wrong) },
+		func() { w.register("name", 0, 0, false, otherShort+sfx) },
+	}
+	for i, r := range regs {
+		if f.mask&(1<<i) != 0 {
+			r()
+		}
+	}
+	switch f.all {
 	case 1:
 		w.register("all", 0, 0, false, "")
 	case 2:
